@@ -63,6 +63,7 @@ structure Params where
   feeChangeParam : Int
   feeDao : Int
   feeUpgrade : Int
+  txSigLimit : Int := 7   -- auth `TxSigLimit`: the most keys (counted with the outer key) a multisignature key may hold
   deriving Repr
 
 structure State where
@@ -98,6 +99,8 @@ structure State where
   bal2 : List (Addr × Int)           -- balances in a second denomination (non-zero only); it moves only as part of a fee
   supply2 : Int
   upgrade : Int × String := (0, "")  -- the upgrade plan (height, version) of the gov parameter store
+  keyNodes : List (Nat × Nat) := []  -- key index -> number of keys below it (0: a plain key; a multisignature key counts
+                                     -- its components, components of components, ...)
   deriving Repr
 
 def forever : Int := -1
@@ -551,6 +554,7 @@ def applyParam (s : State) (key val : String) : State :=
   | "pos/SignedBlocksWindow" => match parseQuotedInt val with | some n => { s with p := { s.p with window := n } } | none => s
   | "pos/MinSignedPerWindow" => match parseQuotedDec val with | some n => { s with p := { s.p with minSignedRaw := n } } | none => s
   | "auth/MaxMemoCharacters" => match parseQuotedInt val with | some n => { s with p := { s.p with maxMemo := n } } | none => s
+  | "auth/TxSigLimit" => match parseQuotedInt val with | some n => { s with p := { s.p with txSigLimit := n } } | none => s
   | "gov/daoOwner" => match parseQuotedAddr val with | some a => { s with daoOwner := a } | none => s
   | "pos/DowntimeJailDuration" => match parseQuotedInt val with | some n => { s with p := { s.p with jailDur := n } } | none => s
   | "pos/MaxEvidenceAge" => match parseQuotedInt val with | some n => { s with p := { s.p with maxAge := n } } | none => s
@@ -651,6 +655,14 @@ exactly the bytes that are checked. -/
 def Tx.sigValid (s : State) (t : Tx) (verifKey : Addr) : Bool :=
   keyAddr s t.signer == verifKey && !(["sig", "fee", "memo", "ent"].contains t.mutn)
 
+/-- `ValidateSignatureDepth`: a multisignature key is refused when it holds, together with itself, more keys than
+`TxSigLimit` (`recSignDepth` counts the outer key as 1 and every key below it, at any depth, as one more, and fails as
+soon as the count exceeds the limit); a plain key is not subject to the limit. -/
+def sigDepthOK (s : State) (k : Nat) : Bool :=
+  match s.keyNodes.lookup k with
+  | some n => n == 0 || (1 + (n : Int)) ≤ s.p.txSigLimit
+  | none => true
+
 /-- the ante handler's decision (everything before `DeductFees`' transfer) -/
 def anteOK (s : State) (t : Tx) (simulate : Bool) : Bool :=
   let signer := t.msg.signer s
@@ -668,6 +680,8 @@ def anteOK (s : State) (t : Tx) (simulate : Bool) : Bool :=
    | some verif =>
      verif == signer &&
      t.feeEff ≥ t.msg.requiredFee s.p &&
+     -- the key that came with the transaction may be a multisignature key (stored keys are plain)
+     (!t.pk || sigDepthOK s t.signer) &&
      (simulate || t.sigValid s verif) &&
      -- DeductFees
      balOf s signer ≥ t.feeEff) &&
@@ -709,6 +723,7 @@ structure Genesis where
   keys : List (Nat × Addr)
   nStored : Nat
   defaultMaxVals : Int
+  keyNodes : List (Nat × Nat) := []               -- key index -> number of keys below it (0 = plain key)
   accs2 : List (Addr × Int) := []                 -- balances in the second denomination (on accounts of `accs`)
   signing : List (Addr × Sign) := []              -- `signing_infos` of an exported genesis (override the fresh ones)
   missed : List ((Addr × Int) × Bool) := []       -- `missed_blocks` of an exported genesis
@@ -724,7 +739,7 @@ def genesis (g : Genesis) : State × List (Addr × Int) :=
     pool := g.pool, feeAcc := g.feeAcc, posAcc := g.posAcc, daoAcc := g.daoAcc,
     keys := g.keys, nStored := g.nStored, height := 0, time := 0, cHeight := 0, cTime := 0, index := [], blockTxs := [],
     bal2 := g.accs2.foldl (fun m e => if e.2 == 0 then m else aset m e.1 e.2) [],
-    supply2 := g.accs2.foldl (fun t e => t + e.2) 0 }
+    supply2 := g.accs2.foldl (fun t e => t + e.2) 0, keyNodes := g.keyNodes }
   let s1 := g.accs.foldl (fun st e => { setBal st e.1 e.2 with supply := st.supply + e.2 }) s0
   let s2 := g.vals.foldl (fun st e =>
     let v : Val := { status := 2, jailed := false, tokens := e.2, unstake := 0 }
